@@ -324,6 +324,48 @@ static void sliding_tasks()
     pmc_outcome("d=%ld try_ok=%d", S.d, tw_ok);
 }
 
+// sliding semaphore, reconfigured while a task is blocked: wait(u) blocks with distance d and lower
+// limit l (u - d > l); set_max_difference(D, l) makes the signalled lower bound lie within the configured
+// distance (u - D <= l); the next signal - signal_all() or a non-advancing signal(l) - must release the
+// waiter.
+static void sliding_reconfigure()
+{
+    Slide S;
+    g_slide = &S;
+    int wake_form = pmc_choose(2, 0);    // 0: signal_all(), 1: signal(l) with the unchanged lower limit
+    long const d = 2, l = 3, u = 10, D = 20;
+    S.d = D;
+    pika::sliding_semaphore sem(d, l);
+    pmc_watch(&sem, sizeof sem, "sliding_semaphore");
+    pmc_on_stuck(slide_stuck);
+    static int reconfigured;
+    reconfigured = 0;
+    rt::start();
+    rt::spawn([&] {
+        rt::watch_self("waiter0");
+        ++S.waiting;
+        S.blocked_u = u;
+        sem.wait(u);
+        --S.waiting;
+        PMC_ASSERT(reconfigured, "sliding-early", "wait(%ld) returned with max_difference %ld and lower limit %ld", u, d, l);
+        ++S.finished;
+    });
+    rt::spawn([&] {
+        rt::watch_self("signaller");
+        int guard = 0;
+        while (!S.waiting && ++guard < 300) pika::this_thread::yield();
+        reconfigured = 1;
+        sem.set_max_difference(D, l);
+        S.maxsig_started = S.maxsig_done = l;
+        if (wake_form == 0) sem.signal_all(); else sem.signal(l);
+        pmc_progress();
+        ++S.finished;
+    });
+    rt::stop();
+    PMC_ASSERT(S.finished == 2, "task-lost", "%d of 2 tasks finished", S.finished);
+    pmc_outcome("wake_form=%d", wake_form);
+}
+
 int main(int argc, char** argv)
 {
     static const char* focus = "F-addr: the semaphore object (value_, internal spinlock, waiter queue) + each task's thread_data";
@@ -335,6 +377,7 @@ int main(int argc, char** argv)
         {"sem_two_blocked", sem_two_blocked<pika::counting_semaphore<>>, 1, 2, 0.1, 0.1, 1, focus, nullptr, nullptr},
         {"binary_2x1", sem_tasks<pika::binary_semaphore<>, 2, 1, 5, 1>, 1, 2, 0.05, 0.05, 1, focus, nullptr, nullptr},
         {"sliding_2", sliding_tasks<2>, 1, 2, 0.15, 0.2, 1, "F-addr: sliding_semaphore (lower_limit_, max_difference_, spinlock, queue) + thread_data", nullptr, nullptr},
+        {"sliding_reconfigure", sliding_reconfigure, 1, 2, 0.05, 0.05, 1, "F-addr: sliding_semaphore + thread_data; set_max_difference while a task is blocked, then signal_all / non-advancing signal", nullptr, nullptr},
         {"sem_os_3", sem_os<pika::counting_semaphore<>, 3, 4, 2>, 1, 3, 0.05, 0.07, 1, "F-addr: semaphore; all pthread lock/cond operations of the default agent", nullptr, nullptr},
     };
     static const char* assumptions[] = {"sequentially consistent interleavings only", "2 worker threads; 2-3 tasks; 1-2 operations each", "timed acquires: 50 ms virtual deadline; 'deadline passes here' is an explorer deviation"};
